@@ -77,6 +77,13 @@ CHECKS['C12'] = dict(
          'S/R on a grid as plain numbers; a dimensional value with no unit available must make Load fail. Exploration.',
     note='Trusted: unit factors from vlib.unitsref; gas constant 8.314472 J/(mol K) as documented in Consts.py; PyYAML.',
     ref='DESIGN.md C12')
+CHECKS['C13'] = dict(
+    technique='Hypothesis data splits x include trees against a dict-union reference model; RuleBasedStateMachine over update/copy/evaluate histories with atomicity and idempotence invariants',
+    text='A group\'s data (H, S, each Cp point, range; zero values included) are assigned to non-empty subsets of 1-4 files arranged in generated include trees (flat, chain, nested, diamond) and orders; the loaded '
+         'library must equal the un-split data; injected conflicts must raise ReadOnlyDataError (overwrite: later value), two spellings in one file must be rejected, a range given in a file of its own must survive; '
+         'a state machine applies update(a,b,overwrite) / copy / evaluate / repeated updates to ThermochemGroup objects next to a dict-union model, checking failure atomicity, idempotence and that sources are untouched. Exploration.',
+    note='Trusted: the dict-union model (validated against the code in the design round). All files of a scenario share one reference temperature.',
+    ref='DESIGN.md C13')
 NOT_YET = {}
 
 def main():
